@@ -6,7 +6,7 @@
 (* clause prints <<"REJECT", id, property, clause>>, the spec state then   *)
 (* follows the SPECIFIED outcome and the walk continues.                   *)
 (***************************************************************************)
-EXTENDS Frames, Json, IOUtils, TLC, TLCExt
+EXTENDS Api, Json, IOUtils, TLC, TLCExt
 
 Events == ndJsonDeserialize(IOEnv.TRACE_FILE)
 
@@ -506,68 +506,7 @@ ToggleArg(a) == IF a = "false" THEN FALSE ELSE TRUE      \* "true", "noarg" -> T
 \* st.heap  : Seq([cls, vals, cell])     vals: argument -> abstract value ; cell: index into st.cells or 0
 \* st.cells : Seq([kind, v, owner])      kind "table" (v = abstract table) | "props" (v = property record)
 \* st.ucell : Seq(cell index)            the j-th container the USER created (dict or Basic.Properties)
-HeapInit == [heap |-> <<>>, cells |-> <<>>, ucell |-> <<>>]
 H == st.heap
-
-TableSlot(cls) ==     \* the (single) table argument of a method class, "properties" for a content header, "" if none
-    IF cls = "ContentHeader" THEN "properties"
-    ELSE LET m == MethodByName(cls) idx == { i \in 1..Len(m.args) : m.args[i].ty = "table" } IN
-         IF idx = {} THEN "" ELSE m.args[CHOOSE i \in idx : TRUE].n
-
-DefaultProps == [nm \in PropNames |-> IF nm = "cluster_id" THEN MkStr(<<>>) ELSE NoneV]
-EmptyTable == MkTable(<<>>)
-
-\* the frame an object denotes in state h: the table slot is read through its cell
-ViewOf(h, o) ==
-    IF o.cls \in {"ContentBody", "Heartbeat", "ProtocolHeader"} THEN o.f
-    ELSE IF o.cls = "ContentHeader" THEN [cls |-> "ContentHeader", weight |-> o.vals.weight, size |-> o.vals.size,
-                                     size_ok |-> TRUE, class_id |-> o.vals.class_id, props |-> h.cells[o.cell].v]
-    ELSE IF o.cell = 0 THEN [cls |-> o.cls, vals |-> o.vals]
-    ELSE [cls |-> o.cls, vals |-> [a \in DOMAIN o.vals |-> IF a = TableSlot(o.cls) THEN h.cells[o.cell].v ELSE o.vals[a]]]
-
-Upsert(tbl, k, v) ==
-    LET pos == SelectInSeq(tbl.e, LAMBDA x : x.k = k) IN
-    IF pos = 0 THEN MkTable(Append(tbl.e, [k |-> k, v |-> v])) ELSE MkTable([tbl.e EXCEPT ![pos] = [k |-> k, v |-> v]])
-
-\* -- new state after each action (h = [heap, cells, ucell]) --
-HNewUser(h, kind, v) == [h EXCEPT !.cells = Append(@, [kind |-> kind, v |-> v, owner |-> "user"]),
-                                  !.ucell = Append(@, Len(h.cells) + 1)]
-
-\* constructor of a method class: kw = given arguments (abstract), uref = 0 or the user dict passed for the table slot
-HConstructMethod(h, cls, kw, uref) ==
-    LET m    == MethodByName(cls)
-        slot == TableSlot(cls)
-        val(a) == IF a.n \in DOMAIN kw THEN kw[a.n] ELSE IF a.def.t = "nodef" THEN NoneV ELSE a.def
-        vals == [nm \in { m.args[i].n : i \in 1..Len(m.args) } |-> val(m.args[CHOOSE i \in 1..Len(m.args) : m.args[i].n = nm])]
-        \* "arguments or {}": the caller's dict is kept only when it is non-empty
-        alias == uref # 0 /\ h.cells[h.ucell[uref]].v.e # <<>>
-        lit   == slot # "" /\ uref = 0 /\ slot \in DOMAIN kw /\ kw[slot].t = "table" /\ kw[slot].e # <<>>
-        newcell == IF lit THEN [kind |-> "table", v |-> kw[slot], owner |-> "user"]
-                   ELSE [kind |-> "table", v |-> EmptyTable, owner |-> "lib"]
-        cellid == IF slot = "" THEN 0 ELSE IF alias THEN h.ucell[uref] ELSE Len(h.cells) + 1
-    IN [h EXCEPT !.cells = IF slot = "" \/ alias THEN @ ELSE Append(@, newcell),
-                 !.heap = Append(@, [cls |-> cls, vals |-> vals, cell |-> cellid])]
-
-\* ContentHeader(weight, size, properties): keeps the caller's property object, else a fresh default one
-HConstructHeader(h, size, uref) ==
-    LET cellid == IF uref # 0 THEN h.ucell[uref] ELSE Len(h.cells) + 1 IN
-    [h EXCEPT !.cells = IF uref # 0 THEN @ ELSE Append(@, [kind |-> "props", v |-> DefaultProps, owner |-> "lib"]),
-              !.heap = Append(@, [cls |-> "ContentHeader", vals |-> [weight |-> 0, size |-> size, class_id |-> -1], cell |-> cellid])]
-
-HMutateCell(h, c, key, name, v) ==
-    [h EXCEPT !.cells[c].v = IF h.cells[c].kind = "table" THEN Upsert(@, key, v) ELSE [@ EXCEPT ![name] = v]]
-
-\* a decoded frame becomes a new object whose containers are fresh, library-allocated
-HDecoded(h, f) ==
-    IF f.cls = "ContentHeader" THEN
-        [h EXCEPT !.cells = Append(@, [kind |-> "props", v |-> f.props, owner |-> "lib"]),
-                  !.heap = Append(@, [cls |-> "ContentHeader", vals |-> [weight |-> f.weight, size |-> f.size, class_id |-> f.class_id],
-                                      cell |-> Len(h.cells) + 1])]
-    ELSE IF f.cls \in MethodNames THEN
-        LET slot == TableSlot(f.cls) IN
-        [h EXCEPT !.cells = IF slot = "" THEN @ ELSE Append(@, [kind |-> "table", v |-> f.vals[slot], owner |-> "lib"]),
-                  !.heap = Append(@, [cls |-> f.cls, vals |-> f.vals, cell |-> IF slot = "" THEN 0 ELSE Len(h.cells) + 1])]
-    ELSE [h EXCEPT !.heap = Append(@, [cls |-> f.cls, vals |-> [x \in {"_"} |-> NoneV], cell |-> 0, f |-> f])]   \* body, heartbeat, protocol header
 
 \* -- the observation logged after every action agrees with the specified state --
 ObjAgrees(h, o, s) ==
@@ -587,9 +526,6 @@ IdentityAgrees(h, e) ==
     /\ \A i \in 1..Len(h.heap), j \in 1..Len(h.ucell) :
           (h.heap[i].cell # 0 /\ Len(e.snap) = Len(h.heap) /\ Len(e.uids) = Len(h.ucell)) =>
               ((e.snap[i].cid = e.uids[j]) <=> (h.heap[i].cell = h.ucell[j]))
-\* the model's own invariant: a library-allocated container belongs to exactly one object
-FreshLibraryCells(h) == \A c \in 1..Len(h.cells) : h.cells[c].owner = "lib" => Cardinality({ i \in 1..Len(h.heap) : h.heap[i].cell = c }) <= 1
-
 HStep(e, h2) ==
     /\ Chk(e, "C16", "objects_have_the_specified_values", SnapAgrees(h2, e))
     /\ Chk(e, "C16", "containers_shared_exactly_as_specified", IdentityAgrees(h2, e))
